@@ -40,6 +40,11 @@ def main(tier, replay=None):
     batches = []
     for cfg, share in (("swarm", 1.0), ("pct", 0.5), ("random", 0.5)):
         batches.append(Batch(cfg, exe, "C14", cfg, seed, 10**8, max(2, int(secs * share)), W, samples=(cfg == "swarm"), extra=extra(cfg)).run())
+    if tier == "thorough":
+        # other build configurations of the same sources: EAV_EXTRA (strndup'd lpart/domain), and the optional grammar flags
+        for vn, defs in (("-extra", ["-DEAV_EXTRA"]), ("-flags", ["-DRFC6531_FOLLOW_RFC5322", "-DRFC6531_FOLLOW_RFC20", "-DLABELS_ALLOW_UNDERSCORE"])):
+            exe_v, _ = build.build_sched(vn, defs)
+            batches.append(Batch("swarm" + vn, exe_v, "C14", "swarm", seed + 3, 10**8, 90, W, extra=extra("swarm" + vn)).run())
     violations, known, nondet = handle_candidates("C14", batches, budget=250)
     inter = set()
     for p in ifiles:
